@@ -110,6 +110,27 @@ def build_coq(status):
             vo = os.path.join(d, v[:-2] + ".vo")
             if not os.path.exists(vo) or os.path.getmtime(vo) < os.path.getmtime(os.path.join(d, v)):
                 missing.append(v[:-2])
+        if rc != 0:
+            # a failed file may leave a stale .vo behind, and so do the files that depend on it: find them
+            import re
+            log = open(os.path.join(d, "build.log")).read()
+            failed = set(re.findall(r"\*\*\* \[Makefile[^\]]*?: (\S+?)\.vo\] Error", log)) | set(missing)
+            if not failed:
+                failed = set(v[:-2] for v in vs)      # make failed for a reason we cannot attribute: trust nothing
+            rcd, dep = sh("coqdep -Q . '' " + " ".join(vs), cwd=d)
+            deps = {}
+            for line in dep.split("\n"):
+                m = re.match(r"(\S+)\.vo .*?: (.*)", line)
+                if m:
+                    deps[m.group(1)] = set(x[:-3] for x in m.group(2).split() if x.endswith(".vo"))
+            changed = True
+            while changed:
+                changed = False
+                for f, ds in deps.items():
+                    if f not in failed and ds & failed:
+                        failed.add(f)
+                        changed = True
+            missing = sorted(failed)
         coq[fam] = {"rc": rc, "missing": missing, "files": len(vs)}
     status["coq"] = coq
 
